@@ -152,6 +152,36 @@ func loadContracts(dirs map[string]string) (*ContractSet, error) {
 			}
 		}
 	}
+	// flag like <target>: the contract starts with every requires / ensures / modifies / results clause of <target>
+	// (an interface-method contract). Used by refinement wrappers: a function of the verification build that calls one
+	// implementation statically is verified against the interface contract, which proves that the implementation's own
+	// contract implies the interface's (behavioural subtyping) - ghostdef clauses excepted, they define ghost state.
+	for _, n := range cs.Order {
+		c := cs.ByTarget[n]
+		lk := c.Flags["like"]
+		if lk == "" {
+			continue
+		}
+		tgt := strings.ReplaceAll(lk, " ", "")
+		src := cs.ByTarget[tgt]
+		if src == nil {
+			src = cs.ByTarget[qualify(c.Pkg, tgt)]
+		}
+		if src == nil {
+			return nil, fmt.Errorf("%s: flag like %s: no such contract", c.Pos, lk)
+		}
+		if src.Pkg != c.Pkg {
+			return nil, fmt.Errorf("%s: flag like %s: must be declared in the package of the interface contract", c.Pos, lk)
+		}
+		c.Requires = append(append([]*Clause{}, src.Requires...), c.Requires...)
+		c.Ensures = append(append([]*Clause{}, src.Ensures...), c.Ensures...)
+		c.Modifies = append(append([]string{}, src.Modifies...), c.Modifies...)
+		c.HasModifies = c.HasModifies || src.HasModifies
+		if len(c.Results) == 0 {
+			c.Results = src.Results
+		}
+		src.Flags["refined"] = strings.TrimSpace(src.Flags["refined"] + " " + n)
+	}
 	// expand modset(NAME) in every location list
 	var expand func(in []string, depth int) ([]string, error)
 	expand = func(in []string, depth int) ([]string, error) {
@@ -284,6 +314,11 @@ func (cs *ContractSet) addClause(cur **Contract, pkgPath, pos, text string) erro
 			x = strings.TrimSpace(x)
 			if x != "" {
 				if isCallers {
+					if strings.HasPrefix(x, "net.") || strings.HasPrefix(x, "io.") {
+						// a method of a standard-library interface: the key is the plain name (net.Conn.SetReadDeadline)
+						pd.Callers = append(pd.Callers, x)
+						continue
+					}
 					pd.Callers = append(pd.Callers, qualify(pkgPath, x))
 				} else {
 					pd.Roots = append(pd.Roots, qualify(pkgPath, x))
